@@ -82,3 +82,15 @@ CLAIMED["C15"] = dict(category=_MC,
          "TLC model-checks the abstract loop, generates 4272 (policy set, environment, loader behaviour) cases, and validates for each the outcomes of all budgets 0..9 and the "
          "recorded loader calls of the real is_authorized_batched against the state machine, with the expected decision re-derived by the reference semantics.",
     note="8 environments x 178 valid policy sets x 3 deterministic loaders (exact / prefetch-all / one extra per call); the harness loader never returns an entity twice.")
+ENGINES[0]["serves_properties"] += ["C16", "C17"]
+CLAIMED["C16"] = dict(category=_MC,
+    text="Slicing.tla defines the level-n slice (entities within n attribute/tag hops of the request's principal, action, resource and context uids, with their data and ancestors) and "
+         "adequacy (same decision, reasons and errors as over the full store). TLC generates 300 strictly valid policy sets that put dereference chains of depth 1-4 in every "
+         "syntactic context, computes the slices for 10 conformant environments and n = 0..4, and checks for the real validate_with_level verdicts: accepted(n) => the slice is "
+         "adequate on every environment, accepted(n) => accepted(n+1); the real authorizer's responses on the slices must equal the reference.",
+    note="the literal (weaker) reading of 'within n hops'; one schema, 10 environments, generated programs only.")
+CLAIMED["C17"] = dict(category=_MC,
+    text="The manifest is a black box; Slicing.tla states adequacy of the store it slices. For the same 300 policy sets and 10 environments the real compute_entity_manifest and "
+         "slice_entities are run; TLC checks that a manifest exists for every strictly valid set (except the documented, explicit refusal for policies using entity tags), that the "
+         "sliced store is a sub-store (nothing invented), and that reference authorization over it - and the real response over it - equal the full-store response.",
+    note="feature entity-manifest (deprecated upstream, still in scope); policies using tags are refused by the analysis with an explicit error and are therefore outside the claim.")
